@@ -564,6 +564,84 @@ theorem Inv.dispatch {s : State} {log : List Reg} (h : Inv s log) (e : Nat) (st 
     rw [← hs, doDispatch_eq, takeThrough_map]
     cases st <;> simp [callSeq, hs, List.any_map, Function.comp_def]
 
+/-! ### events of user classes -/
+
+/-- An event class that implements the stop protocol FAITHFULLY - after `stop_propagation()` it
+reports itself stopped, and what listeners otherwise do to it does not change that report - is,
+for the dispatcher, the stock event: the same listeners are called and the same answer is
+reported afterwards, wherever the class keeps its state. -/
+theorem doDispatchEv_faithful {σ : Type} (P : EvProto σ)
+    (hstop : ∀ s, P.isStopped (P.stop s) = true)
+    (htouch : ∀ s, P.isStopped (P.touch s) = P.isStopped s) : ∀ (ls : List Listener) (s : σ),
+    (doDispatchEv P ls s).1 = (doDispatch ls (P.isStopped s)).1 ∧
+      P.isStopped (doDispatchEv P ls s).2 = (doDispatch ls (P.isStopped s)).2
+  | [], s => by simp [doDispatchEv, doDispatch]
+  | l :: rest, s => by
+    cases h : P.isStopped s
+    · cases hl : l.stops
+      · have ih := doDispatchEv_faithful P hstop htouch rest (P.touch s)
+        rw [htouch, h] at ih
+        simp [doDispatchEv, doDispatch, h, hl, ih.1, ih.2]
+      · have ih := doDispatchEv_faithful P hstop htouch rest (P.stop (P.touch s))
+        rw [hstop] at ih
+        simp [doDispatchEv, doDispatch, h, hl, ih.1, ih.2]
+    · simp [doDispatchEv, doDispatch, h]
+
+theorem doDispatchEv_stopped {σ : Type} (P : EvProto σ) (ls : List Listener) {s : σ}
+    (h : P.isStopped s = true) : doDispatchEv P ls s = ([], s) := by
+  cases ls <;> simp [doDispatchEv, h]
+
+/-- the budget event: the listeners called are the first `n - c` of the prefix through the first
+stopping listener, and afterwards the event reports itself stopped iff one of them stopped it or
+the budget is used up -/
+theorem doDispatchEv_budget (n : Nat) : ∀ (ls : List Listener) (c : Nat),
+    (doDispatchEv (budgetEvent n) ls (c, false)).1 = (takeThrough (fun l => l.stops) ls).take (n - c) ∧
+      (budgetEvent n).isStopped (doDispatchEv (budgetEvent n) ls (c, false)).2 =
+        (((takeThrough (fun l => l.stops) ls).take (n - c)).any (fun l => l.stops) ||
+          decide (n ≤ c + ((takeThrough (fun l => l.stops) ls).take (n - c)).length))
+  | [], c => by simp [doDispatchEv, takeThrough, budgetEvent]
+  | l :: rest, c => by
+    by_cases hn : n ≤ c
+    · have : n - c = 0 := by omega
+      simp [doDispatchEv, budgetEvent, hn, this]
+    · obtain ⟨k, hk⟩ : ∃ k, n - c = k + 1 := ⟨n - c - 1, by omega⟩
+      have hk' : n - (c + 1) = k := by omega
+      cases hl : l.stops
+      · have ih := doDispatchEv_budget n rest (c + 1)
+        rw [hk'] at ih
+        simp only [doDispatchEv, budgetEvent, hn, decide_false, Bool.or_false, Bool.false_eq_true,
+          if_false, hl, takeThrough, hk, List.take_succ_cons, List.any_cons, Bool.false_or,
+          List.length_cons] at ih ⊢
+        refine ⟨by rw [ih.1], ?_⟩
+        rw [ih.2]
+        congr 2
+        apply propext
+        omega
+      · have hst : (budgetEvent n).isStopped (c, false) = false := by simp [budgetEvent, hn]
+        have hst2 : (budgetEvent n).isStopped ((budgetEvent n).stop ((budgetEvent n).touch (c, false))) = true := by
+          simp [budgetEvent]
+        rw [doDispatchEv]
+        simp only [hst, hl, Bool.false_eq_true, if_false, if_true]
+        rw [doDispatchEv_stopped _ rest hst2]
+        simp [takeThrough, hl, hk, budgetEvent]
+
+theorem Inv.dispatchN {s : State} {log : List Reg} (h : Inv s log) (e : Nat) (n : Nat) :
+    ∃ s', dispatchN s e n = .ok (s', (callSeqN log e n).map (fun r => r.l),
+        (callSeqN log e n).any (fun r => r.l.stops) || decide (n ≤ (callSeqN log e n).length)) ∧
+      Inv s' log := by
+  obtain ⟨s', h1, h2⟩ := h.getListeners e
+  refine ⟨s', ?_, h2⟩
+  simp only [Dispatcher.dispatchN, h1, bind, Except.bind, pure, Except.pure]
+  have hb := doDispatchEv_budget n ((specOrder log e).map (fun r => r.l)) 0
+  simp only [Nat.sub_zero, Nat.zero_add] at hb
+  cases hs : specOrder log e with
+  | nil => simp [callSeqN, callSeq, hs, takeThrough, budgetEvent]
+  | cons r t =>
+    rw [← hs, hb.1, hb.2, takeThrough_map]
+    simp only [callSeqN, callSeq, hs, Bool.false_eq_true, if_false, ← List.map_take, List.any_map,
+      List.length_map, Function.comp_def]
+    simp
+
 /-- every registration sits in the bucket of its priority -/
 theorem BkInv.reg_in_bucket {d : Buckets} {rs : List Reg} (h : BkInv d rs) {x : Reg} (hx : x ∈ rs) :
     ∃ b, (x.prio, b) ∈ d ∧ x.l ∈ b := by
@@ -732,6 +810,9 @@ def Agrees (log : List Reg) : Op → Out → Prop
   | .dispatch e st, o =>
     o = .called ((callSeq log e st).map (fun r => r.l))
           (st || (callSeq log e st).any (fun r => r.l.stops))
+  | .dispatchN e n, o =>
+    o = .called ((callSeqN log e n).map (fun r => r.l))
+          ((callSeqN log e n).any (fun r => r.l.stops) || decide (n ≤ (callSeqN log e n).length))
   | .hasListeners (some e), o => o = .bool (!(regsFor log e).isEmpty)
   | .hasListeners none, o => o = .bool (!log.isEmpty)
   | .getListeners (some e), o => o = .list ((specOrder log e).map (fun r => r.l))
@@ -762,6 +843,10 @@ theorem step_agrees {s : State} {log : List Reg} (h : Inv s log) (op : Op) :
     simp [step, addListener_eq, bind, Except.bind, pure, Except.pure]
   | dispatch e st =>
     obtain ⟨s', h1, h2⟩ := h.dispatch e st
+    refine ⟨s', _, ?_, by simpa [regOf] using h2, rfl⟩
+    simp [step, h1, bind, Except.bind, pure, Except.pure]
+  | dispatchN e n =>
+    obtain ⟨s', h1, h2⟩ := h.dispatchN e n
     refine ⟨s', _, ?_, by simpa [regOf] using h2, rfl⟩
     simp [step, h1, bind, Except.bind, pure, Except.pure]
   | hasListeners eo =>
@@ -858,6 +943,7 @@ theorem specOut_agrees (log : List Reg) (op : Op) : Agrees log op (specOut log o
   cases op with
   | add e l p => rfl
   | dispatch e st => rfl
+  | dispatchN e n => rfl
   | hasListeners eo => cases eo <;> rfl
   | getListeners eo =>
     cases eo with
